@@ -445,7 +445,7 @@ def reduced_alphabet():
 
 class Bounded(EnumPart):
     name = 'bounded-histories'
-    rule = ('complete enumeration of histories: length 2 over the full alphabet (14 renderer uses, 5 fault kinds at every list position, '
+    rule = ('complete enumeration of histories: length 2 over the full alphabet (17 renderer uses, 5 fault kinds at every list position, '
             'bare parses, Scheme) and length 4 (quick) / 5 (thorough) over 8 state-touching operations; the oracle runs after every '
             'step, so every shorter history is covered as a prefix; non-trivial = a fault or a renderer change before the last observation')
 
